@@ -5,7 +5,7 @@ pub mod fen;
 mod iter;
 pub mod raw;
 #[cfg(rustyyato_chess_verif)]
-mod verif;
+pub mod verif;
 #[cfg(rustyyato_chess_verif)]
 pub use castle_rights::CastleRights;
 #[cfg(rustyyato_chess_verif)]
